@@ -52,6 +52,11 @@ def main():
                 ProtocolCodeGenerator(Path(xml_root)).generate(Path(out_root + ".first"))
                 del writes[:]
                 ProtocolCodeGenerator(Path(xml_root)).generate(Path(out_root))
+            elif mode == "other-tree-first":
+                # process-wide state (module-level caches) must not leak from one tree into the next
+                ProtocolCodeGenerator(Path(xml_root + ".other")).generate(Path(out_root + ".first"))
+                del writes[:]
+                ProtocolCodeGenerator(Path(xml_root)).generate(Path(out_root))
             elif mode == "failed-then-good":
                 # a failed run (output root blocked by a regular file) must not leak state into the next run
                 g = ProtocolCodeGenerator(Path(xml_root))
